@@ -20,8 +20,9 @@ func init() {
 		Assumptions: []string{"proto.Clone returns a deep copy; proto.Merge(dst, src) deep-copies from src and writes only dst; fmutils.Filter/Prune and proto.Reset write only their message argument"},
 		Run:         runC07,
 		Controls: []Control{
-			{Name: "revert-F56-waste-keeps-callers-record", File: "pkg/trait/wastepb/model.go", Old: "append(m.allWasteRecords, proto.Clone(wr).(*traits.WasteRecord))", New: "append(m.allWasteRecords, wr)", Expect: "R07.8"},
-			{Name: "revert-F57-light-preset-into-request", File: "pkg/trait/lightpb/model.go", Old: "b.Preset = proto.Clone(p.LightPreset).(*traits.LightPreset)", New: "b.Preset = p.LightPreset", Expect: "R07.8"},
+			{Name: "first-write-stores-the-callers-message", File: "pkg/resource/opt.go", Old: "\t\t\tdst = value.ProtoReflect().New().Interface()\n", New: "\t\t\tdst = value\n", Expect: "R07.2"},
+			{Name: "revert-F56-waste-keeps-callers-record", File: "pkg/trait/wastepb/model.go", Old: "append(m.allWasteRecords, proto.Clone(wr).(*traits.WasteRecord))", New: "append(m.allWasteRecords, proto.Message(wr).(*traits.WasteRecord))", Expect: "R07.8"},
+			{Name: "revert-F57-light-preset-into-request", File: "pkg/trait/lightpb/model.go", Old: "b.Preset = proto.Clone(p.LightPreset).(*traits.LightPreset)", New: "b.Preset = proto.Message(p.LightPreset).(*traits.LightPreset)", Expect: "R07.8"},
 			{Name: "revert-F58-openclose-preset-into-request", File: "pkg/trait/openclosepb/model.go", Old: "\t\t\tpositions.States[i] = proto.Clone(position).(*traits.OpenClosePosition)\n", New: "\t\t\tpositions.States[i] = position\n", Expect: "R07.8"},
 			{Name: "waste-keeps-stored-result", Silent: true, File: "pkg/trait/wastepb/model.go", Old: "append(m.allWasteRecords, proto.Clone(wr).(*traits.WasteRecord))", New: "append(m.allWasteRecords, proto.Clone(v).(*traits.WasteRecord))"},
 			{Name: "mode-relative-adjusts-old-map", File: "pkg/trait/modepb/model_server.go", Old: "\t\tif newVal.Values == nil {\n\t\t\tnewVal.Values = make(map[string]string)\n\t\t}\n", New: "\t\tif newVal.Values == nil {\n\t\t\tnewVal.Values = oldVal.Values\n\t\t}\n\t\tif newVal.Values == nil {\n\t\t\tnewVal.Values = make(map[string]string)\n\t\t}\n", Expect: "relativeAdjustment"},
@@ -307,6 +308,10 @@ func r072(c *an.Ctx) {
 		for _, r := range an.Returns(cl) {
 			for _, s := range an.Sources(r.Results[0]) {
 				if fv, ok := s.(*ssa.FreeVar); ok && strings.HasSuffix(fv.Type().String(), "proto.Message") {
+					returned = true
+				}
+				// (a captured variable resolves to what it was bound to: the message parameter of changeFn itself)
+				if p, ok := s.(*ssa.Parameter); ok && p.Parent() == fn && (strings.HasSuffix(p.Type().String(), "proto.Message") || strings.HasSuffix(p.Type().String(), "protoreflect.ProtoMessage")) {
 					returned = true
 				}
 				if u, ok := s.(*ssa.UnOp); ok {
